@@ -14,6 +14,7 @@ import (
 
 	"github.com/cloudwego/frugal"
 	"github.com/cloudwego/frugal/debug"
+	"verif/schema"
 
 	"verif/gen"
 	"verif/harness"
@@ -209,6 +210,13 @@ func legacyCalls(r *gen.Rand, res *c17Result) {
 	}
 }
 
+type c17Held struct {
+	s     *schema.Struct
+	v     reflect.Value
+	canon []byte
+	ci    int
+}
+
 // c17PtrPtr is a **struct: an argument (and a Pretouch target) the codec does not accept.
 func c17PtrPtr() interface{} {
 	l := &zoo.Leaf{A: 1}
@@ -258,6 +266,7 @@ func RunSubC17(spec string) {
 	if stride < 1 {
 		stride = 1
 	}
+	var held []c17Held
 	for k := 0; k < items; k++ {
 		if place == "each" || (place == "mid" && k == items/2) {
 			legacyCalls(lr, res)
@@ -294,7 +303,20 @@ func RunSubC17(spec string) {
 			note("item %d: decode failed: %v %v", ci, dr.err, dr.pv)
 			continue
 		}
-		h.Write(ref.Canon(s, dst.Elem(), ref.CmpOpts{LenientDouble: true}))
+		canon := ref.Canon(s, dst.Elem(), ref.CmpOpts{LenientDouble: true})
+		h.Write(canon)
+		// objects decoded earlier and still held stay what they were, whatever legacy
+		// calls and decodes came after them
+		for _, hv := range held {
+			if !bytes.Equal(ref.Canon(hv.s, hv.v.Elem(), ref.CmpOpts{LenientDouble: true}), hv.canon) {
+				note("an object decoded at item %d (%s) and still held changed after later legacy calls and decodes (now at item %d)", hv.ci, hv.s.Describe(), ci)
+				break
+			}
+		}
+		held = append(held, c17Held{s, dst, canon, ci})
+		if len(held) > 6 {
+			held = held[1:]
+		}
 		if d := ref.Diff(s, cc.V.Elem(), dst.Elem(), ref.CmpOpts{RoundTrip: true, LenientDouble: true}); d != "" {
 			note("item %d: round trip differs: %s", ci, d)
 		}
